@@ -74,8 +74,14 @@ func findWalker(c *Check, rule string) *walkerInfo {
 						w.CancelNode = engine.TopFunc(fn)
 					}
 				case *ssa.MapUpdate:
+					// the completion handler records the completion it was handed (a snapshot copy
+					// of the map elsewhere is not the handler)
 					if cm != nil && types.Identical(x.Map.Type(), cm) {
-						w.OnComplete = fn
+						for _, p := range fn.Params {
+							if engine.TypeKey(p.Type()) == "dag.Completion" {
+								w.OnComplete = fn
+							}
+						}
 					}
 				case *ssa.Send:
 					if isLoadOfField(x.Chan, fReady) {
@@ -437,23 +443,83 @@ func spawnOnlyForSelected(fn *ssa.Function, at ssa.Instruction) bool {
 			return false
 		}
 		// every update of that map happens under GetIsSelected()
-		n := 0
-		for _, b := range fn.Blocks {
-			for _, in := range b.Instrs {
-				mu, ok := in.(*ssa.MapUpdate)
-				if !ok || !(sameVar(mu.Map, lk.X) || mu.Map == lk.X) {
-					continue
+		return mapFilledOnlyUnderSelected(fn, lk.X, 0)
+	}
+	r, _ := engine.PathExists(fn, nil, engine.IsInstr(at), engine.PathQuery{CutEdge: engine.CutEdgesWhere(func(a engine.Atom) bool { return isSelectedTrue(a) || registered(a) })})
+	return !r
+}
+
+// mapFilledOnlyUnderSelected: the map value is a fresh map of fn whose every update happens under
+// GetIsSelected(), or the result of a first-party function that returns such a map.
+func mapFilledOnlyUnderSelected(fn *ssa.Function, m ssa.Value, depth int) bool {
+	if depth > 3 {
+		return false
+	}
+	orig := engine.Origins(m)
+	if len(orig) == 0 {
+		return false
+	}
+	for _, o := range orig {
+		if o == nil {
+			continue // the zero map: every lookup misses
+		}
+		switch x := o.(type) {
+		case *ssa.MakeMap:
+			owner := x.Parent()
+			n := 0
+			for _, b := range owner.Blocks {
+				for _, in := range b.Instrs {
+					mu, ok := in.(*ssa.MapUpdate)
+					if !ok {
+						continue
+					}
+					same := false
+					for _, mo := range engine.Origins(mu.Map) {
+						if mo == ssa.Value(x) {
+							same = true
+						}
+					}
+					if !same {
+						continue
+					}
+					n++
+					if r, _ := engine.PathExists(owner, nil, engine.IsInstr(mu), engine.PathQuery{CutEdge: engine.CutEdgesWhere(isSelectedTrue)}); r {
+						return false
+					}
 				}
-				n++
-				if r, _ := engine.PathExists(fn, nil, engine.IsInstr(mu), engine.PathQuery{CutEdge: engine.CutEdgesWhere(isSelectedTrue)}); r {
+			}
+			if n == 0 {
+				return false
+			}
+			// the map must not be handed to anything that could add to it
+			for _, ref := range *x.Referrers() {
+				switch r := ref.(type) {
+				case *ssa.MapUpdate, *ssa.Lookup, *ssa.Range, *ssa.Return, *ssa.DebugRef, *ssa.Phi, *ssa.Store:
+				case *ssa.Call:
+					if b, ok := r.Call.Value.(*ssa.Builtin); !ok || (b.Name() != "len" && b.Name() != "delete") {
+						return false
+					}
+				default:
+					return false
+				}
+			}
+		default:
+			call, idx := engine.CallOf(o)
+			if call == nil {
+				return false
+			}
+			h := call.Common().StaticCallee()
+			if h == nil || len(h.Blocks) == 0 {
+				return false
+			}
+			for _, r := range engine.Returns(h) {
+				if idx >= len(r.Results) || !mapFilledOnlyUnderSelected(h, r.Results[idx], depth+1) {
 					return false
 				}
 			}
 		}
-		return n > 0
 	}
-	r, _ := engine.PathExists(fn, nil, engine.IsInstr(at), engine.PathQuery{CutEdge: engine.CutEdgesWhere(func(a engine.Atom) bool { return isSelectedTrue(a) || registered(a) })})
-	return !r
+	return true
 }
 
 // releaseGuardedByHelper: the release site is dominated by the true edge of a call
